@@ -1,3 +1,4 @@
+import ZnVerif.Properties.Bridges
 import ZnVerif.Properties.C06
 import ZnVerif.Properties.C06Eval
 open ZnVerif.Properties.C06
@@ -37,3 +38,23 @@ open ZnVerif.Properties.C06
 #print axioms ZnVerif.Properties.C06Eval.well_scoped_initially
 #print axioms ZnVerif.Properties.C06Eval.const_declaration_rejects_assignment
 #print axioms ZnVerif.Properties.C06Eval.inputs_are_const
+
+-- bridge: the evaluator model's embedded scope / containers are the finer models (Properties/Bridges.lean)
+#print axioms ZnVerif.Properties.Bridges.scope_bridge_begin
+#print axioms ZnVerif.Properties.Bridges.scope_bridge_end
+#print axioms ZnVerif.Properties.Bridges.scope_bridge_find
+#print axioms ZnVerif.Properties.Bridges.scope_bridge_findM
+#print axioms ZnVerif.Properties.Bridges.scope_bridge_declare
+#print axioms ZnVerif.Properties.Bridges.scope_bridge_declareExt
+#print axioms ZnVerif.Properties.Bridges.scope_bridge_set
+#print axioms ZnVerif.Properties.Bridges.scope_bridge
+#print axioms ZnVerif.Properties.Bridges.interp_scope_refines_stack_from
+#print axioms ZnVerif.Properties.Bridges.interp_scope_refines_stack
+#print axioms ZnVerif.Properties.Bridges.scope_invariant_intrinsic
+#print axioms ZnVerif.Properties.Bridges.interp_scope_refines_stack_any
+#print axioms ZnVerif.Properties.Bridges.stale_ref_disagreement
+#print axioms ZnVerif.Properties.Bridges.vm_scope_bridge_find
+#print axioms ZnVerif.Properties.Bridges.vm_scope_bridge_declare
+#print axioms ZnVerif.Properties.Bridges.vm_scope_bridge_declareExt
+#print axioms ZnVerif.Properties.Bridges.vm_scope_bridge_set
+#print axioms ZnVerif.Properties.Bridges.vm_scope_bridge_block
